@@ -168,13 +168,14 @@ def gen_rules(r, tag, console=False, reuse=False, externals=False):
         f6.append("r%s_ep" % tag)
     if externals:
         lines.append('rule r%s_xi { condition: ext_i == 2 or ext_i > 100 }' % tag)
+        lines.append('rule r%s_xd { condition: ext_i == 10 or ext_i == 100 or ext_i == 7 }' % tag)     # decimal reading of 010 / 0100 / 007
         lines.append('rule r%s_xs { condition: ext_s contains "ab" }' % tag)
         lines.append('rule r%s_xb { strings: $a = "alpha" condition: ext_b and $a }' % tag)
         lines.append('rule r%s_xf { condition: filesize > ext_i * 10 }' % tag)
         lines.append('rule r%s_f2at { strings: $a = "alpha" $b = "bravo" condition: $a at ext_i or $b at ext_i }' % tag)
         lines.append('rule r%s_f2in { strings: $a = "alpha" condition: $a in (0..ext_i) }' % tag)
         lines.append('rule r%s_f2of { strings: $a = "alpha" $b = "bravo" $c = "charlie" condition: ext_i of them }' % tag)
-        names += ["r%s_%s" % (tag, x) for x in ("xi", "xs", "xb", "xf", "f2at", "f2in", "f2of")]
+        names += ["r%s_%s" % (tag, x) for x in ("xi", "xd", "xs", "xb", "xf", "f2at", "f2in", "f2of")]
         f2 += ["r%s_%s" % (tag, x) for x in ("f2at", "f2in", "f2of")]
     text = "".join('import "%s"\n' % m for m in sorted(imports)) + "\n".join(lines) + "\n"
     return text, dict(names=names, tags=sorted(alltags), f2=f2, f6=f6)
@@ -504,6 +505,10 @@ class Cli:
             open(os.path.join(small, "s%d.txt" % i), "w").write("alpha bravo %d\n" % i)
         lst_missing = os.path.join(rdir, "e%s_missing.list" % sc["id"])
         open(lst_missing, "w").write(f0 + "\n" + tree + "/no-such-file\n")
+        lst_missing_first = os.path.join(rdir, "e%s_missing_first.list" % sc["id"])
+        open(lst_missing_first, "w").write(tree + "/no-such-file\n" + "".join(f + "\n" for f in files[:12]))
+        lst_missing_mid = os.path.join(rdir, "e%s_missing_mid.list" % sc["id"])
+        open(lst_missing_mid, "w").write("".join(f + "\n" for f in files[:5]) + tree + "/no-such-file\n" + "".join(f + "\n" for f in files[5:14]))
         lst_ok = os.path.join(rdir, "e%s_ok.list" % sc["id"])
         open(lst_ok, "w").write("".join(f + "\n" for f in files[:10]))
         y, yc = self.b["yara"], self.b["yarac"]
@@ -529,6 +534,10 @@ class Cli:
             ("scan-error-dir", [y, "-k", "2", "-p", "4", deep, small], True, True),
             ("scan-error-dir-p1", [y, "-k", "2", "-p", "1", deep, small], True, True),
             ("list-with-missing-file", [y, "--scan-list", good, lst_missing], True, True),
+            ("list-missing-file-first-p1", [y, "-p", "1", "--scan-list", good, lst_missing_first], True, True),
+            ("list-missing-file-first-p4", [y, "-p", "4", "--scan-list", good, lst_missing_first], True, True),
+            ("list-missing-file-mid-p1", [y, "-p", "1", "--scan-list", good, lst_missing_mid], True, True),
+            ("list-missing-file-mid-p32", [y, "-p", "32", "--scan-list", good, lst_missing_mid], True, True),
             ("list-missing", [y, "--scan-list", good, rdir + "/no-such.list"], True, False),
             ("list-is-dir", [y, "--scan-list", good, tree], True, False),
             ("bad-external", [y, "-d", "x", good, f0], True, "F25"),
@@ -650,7 +659,7 @@ def gen_scenarios(tier):
         for ci in range(3 if quick else 9):
             sid += 1
             text, info = gen_rules(r, "%dx" % sid, externals=True)
-            vi = r.choice([0, 2, 4, 6, 101])
+            vi = r.choice([0, 2, 4, 6, 101, "010", "0100", "007", "-0"])
             cext = [("ext_i", str(vi)), ("ext_s", r.choice(["abc", "xyz", "cab"])), ("ext_b", r.choice(["true", "false"]))]
             mode = ci % 3
             if mode == 0:
@@ -658,7 +667,7 @@ def gen_scenarios(tier):
             elif mode == 1:
                 sext = list(cext)                                                   # same values at both stages
             else:
-                sext = [("ext_i", str(r.choice([x for x in [0, 2, 4, 6, 101] if x != vi]))), ("ext_s", r.choice(["abd", "zab"])), ("ext_b", r.choice(["true", "false"]))]
+                sext = [("ext_i", str(r.choice([x for x in [0, 2, 4, 6, 101, "010", "0100"] if x != vi]))), ("ext_s", r.choice(["abd", "zab"])), ("ext_b", r.choice(["true", "false"]))]
             files = walk_like_scan_dir(build_tree_cached(t, quick), False)
             scs.append({"kind": "compiled", "id": "%d" % sid, "tree": t, "rules": [{"ns": None, "text": text}], "opts": r.choice([["-s", "-r"], ["-r"], ["-g", "-m", "-r"], ["-c", "-r"]]),
                         "p": [r.choice([1, 4, 32])], "compile_ext": cext, "scan_ext": sext, "f2": info["f2"], "single_files": r.sample(files, 3)})
